@@ -239,9 +239,7 @@ fn release_action_mappings(state: &mut State) -> Vec<Event> {
   events
 }
 
-fn add_new_mapping(state: &mut State, new_key: &KeyCode, m: &Mapping) -> StepResult {
-  let mut events: Vec<Event> = Vec::new();
-  
+fn consume_pass_through_keys(state: &mut State, m: &Mapping, events: &mut Vec<Event>) {
   let pass_through_keys = &mut state.pass_through_keys;
   let mapped_output_keys = &mut state.mapped_output_keys;
   
@@ -260,6 +258,12 @@ fn add_new_mapping(state: &mut State, new_key: &KeyCode, m: &Mapping) -> StepRes
       true
     }
   });
+}
+
+fn add_new_mapping(state: &mut State, new_key: &KeyCode, m: &Mapping) -> StepResult {
+  let mut events: Vec<Event> = Vec::new();
+  
+  consume_pass_through_keys(state, m, &mut events);
   
   if is_action_mapping(m) {
     events.append(&mut release_action_mappings(state));
@@ -271,6 +275,9 @@ fn add_new_mapping(state: &mut State, new_key: &KeyCode, m: &Mapping) -> StepRes
     };
     if should_absorb {
       events.append(&mut release_absorbed_keys(state));
+      // Removing the absorbed keys' mappings can hand their (still physically held)
+      // output keys back to pass-through; consume those too if the new mapping uses them.
+      consume_pass_through_keys(state, m, &mut events);
     }
   }
   
